@@ -419,6 +419,7 @@ type memDag struct {
 	adds     int
 	onAdd    func(d *memDag, nd format.Node)
 	journal  []string // identifiers in write order
+	removed  []string // identifiers removed through Remove
 }
 
 func (api *memAPI) Dag() coreiface.APIDagService {
@@ -468,6 +469,12 @@ func (d *memDag) AddMany(c context.Context, nds []format.Node) error {
 	return nil
 }
 func (d *memDag) GetMany(context.Context, []cid.Cid) <-chan *format.NodeOption { return nil }
-func (d *memDag) Remove(context.Context, cid.Cid) error                        { return nil }
+func (d *memDag) Remove(_ context.Context, c cid.Cid) error {
+	vx.Atomic(func() {
+		delete(d.nodes, c.String())
+		d.removed = append(d.removed, c.String())
+	})
+	return nil
+}
 func (d *memDag) RemoveMany(context.Context, []cid.Cid) error                  { return nil }
 func (d *memDag) Pinning() format.NodeAdder                                    { return d }
